@@ -235,8 +235,7 @@ class Mirror:
         k, s = op[0], op[1]
         t = []
         sp, g = self.sp, self.g
-        if k in ("NewSpace", "AddBases") and code == NAMECONFLICT:
-            t.append("D13")
+        # D13 (add_bases / new_space never detected a name conflict) is repaired in /repo: generated
         # D34 (remove_bases / del of a space leaving a descendant without MRO), D3 (re-derivation order) and the
         # first-sub-only name test (N3) are repaired in /repo: their former triggers are generated
         if k == "NewRef" and s in sp and op[2] in sp[s]["cells"]:
